@@ -3,6 +3,7 @@ import json
 import os
 import shutil
 import xml.etree.ElementTree as ET
+from fractions import Fraction
 from pathlib import Path
 
 import numpy as np
@@ -104,6 +105,30 @@ def q(v):
     return int(w)
 
 
+def gen_times(rng, steps):
+    """The ``times`` handed to write_pvd: None (default: the step indices) or strictly
+    increasing physical times (multiples of 1/8) that are NOT the step indices."""
+    n = len(steps)
+    r = rng.random()
+    if n < 2 or r < 0.3:
+        return None
+    if r < 0.5:                        # non-integer, uneven spacing, starting at 0
+        t, out = 0.0, []
+        for _ in range(n):
+            out.append(t)
+            t += rng.choice([1, 2, 3, 4, 5, 12]) / 8.0
+        return out
+    if r < 0.65:                       # constant dt = 1/2: 0, 0.5, 1.0, 1.5
+        return [steps[0] + 0.5 * i for i in range(n)]
+    if r < 0.8:                        # times far beyond the number of steps
+        t0 = rng.choice([50.0, 1000.0, 12.5])
+        return [t0 + rng.choice([1.0, 2.5, 10.0]) * i for i in range(n)]
+    if r < 0.9:                        # every time equals the NEXT step's index
+        return [float(s + 1) for s in steps]
+    # the latest time equals an EARLIER step's index
+    return [steps[0] - 1.0 - 0.25 * (n - 1 - i) for i in range(n - 1)] + [float(steps[0])]
+
+
 # ------------------------------------------------------------------------------------------
 class C38(Prop):
     id = "C38"
@@ -143,8 +168,11 @@ class C38(Prop):
     rule = ("md-grids: optional fractured unit square (Cartesian or simplex, 0-2 fractures, with "
             "interfaces) plus 0-4 hand-added subdomains out of triangle strips, quad strips, "
             "polygon grids mixing quad/triangle/pentagon cells in random cell order, lines, and "
-            "3-D hex / tet / tensor grids; 1-3 exports at increasing time-step indices in 0..12 "
-            "(crossing 9 -> 10), scalar and 3-vector cell data in multiples of 1/4, interface "
+            "3-D hex / tet / tensor grids; 1-4 exports at increasing time-step indices in 0..13 "
+            "(crossing 9 -> 10), the pvd written with the default times (= step indices) or with "
+            "physical times that differ from the indices (non-integer uneven spacing, constant "
+            "dt 1/2, times far beyond the number of steps, times equal to the next / an "
+            "earlier step's index), scalar and 3-vector cell data in multiples of 1/4, interface "
             "data when there are interfaces; import through import_from_pvd; plus time-history "
             "cases (1-6 writes, restore index in range and out of range); non-trivial = at "
             "least two cell types in one dimension or two time steps; distinct by (case, output)")
@@ -194,10 +222,11 @@ class C38(Prop):
                         extra.append(["line", rng.randint(1, 3)])
             if base is None and not extra:
                 extra = [["tri", 1], ["quad", 2], ["tri", 1]]
-            nsteps = rng.choice([1, 2, 3])
-            start = rng.choice([0, 1, 7, 8, 9])
-            steps = sorted(rng.sample(range(start, start + 4), nsteps))
+            nsteps = rng.choice([1, 2, 3, 4])
+            start = rng.choice([0, 0, 1, 7, 8, 9])
+            steps = sorted(rng.sample(range(start, start + 5), nsteps))
             yield {"kind": "vtu", "base": base, "fracs": fracs, "extra": extra, "steps": steps,
+                   "times": gen_times(rng, steps),
                    "vector": rng.random() < 0.35, "seed": rng.randint(0, 10 ** 6)}
 
     # ---------------------------------------------------------------- implementation
@@ -255,7 +284,11 @@ class C38(Prop):
             data += [(intf, "lam", rand(intf.num_cells)) for intf in intfs]
             written[ts] = data
             ex.write_vtu(data, time_step=ts)
-        ex.write_pvd()
+        times = case.get("times")
+        if times is None:
+            ex.write_pvd()
+        else:
+            ex.write_pvd(times=np.array(times, dtype=float))
         last = written[case["steps"][-1]]
         # what was written, per dimension
         dims = []
@@ -288,7 +321,9 @@ class C38(Prop):
         files = []
         for el in ET.parse(Path(folder) / "f.pvd").iter("DataSet"):
             files.append(el.attrib["file"])
-            entries.append([int(float(el.attrib["timestep"])), len(files) - 1])
+            ts1024 = Fraction(el.attrib["timestep"]) * 1024
+            assert ts1024.denominator == 1
+            entries.append([int(ts1024), len(files) - 1])
         # import on a fresh exporter over the same md-grid, states emptied
         for _, d in mdg.subdomains(return_data=True):
             d[pp.TIME_STEP_SOLUTIONS] = {}
@@ -301,7 +336,8 @@ class C38(Prop):
             if "Incompatible cell data" not in str(e):
                 raise
             return {"dims": dims, "entries": entries, "picked": None, "restored": "meshio-unreadable"}
-        picked = [int(ti), [files.index(str(f)) for f in ex2._restart_files]]
+        picked = [int(ti), [files.index(str(f)) for f in ex2._restart_files],
+                  [str(f) for f in ex2._restart_files], files]
         restored = []
         for dd in dims:
             ents = [e for e in (sds if dd["sd"] else intfs) if e.dim == dd["dim"]]
@@ -309,6 +345,9 @@ class C38(Prop):
             out = []
             for e in ents:
                 d = mdg.subdomain_data(e) if dd["sd"] else mdg.interface_data(e)
+                if key not in d[pp.TIME_STEP_SOLUTIONS]:
+                    out.append("nothing-imported")
+                    continue
                 v = np.asarray(d[pp.TIME_STEP_SOLUTIONS][key][0])
                 out.append(v.reshape((-1, nvec)).tolist() if case["vector"] else v.tolist())
             restored.append(out)
@@ -329,9 +368,17 @@ class C38(Prop):
             return None
         if res["restored"] == "meshio-unreadable":
             return "the exported vtu file cannot be read back (ValueError inside meshio.read)"
-        if res["picked"][0] != case["steps"][-1]:
+        last = case["steps"][-1]
+        suffix = f"_{last:06d}.vtu"
+        want = sorted(f for f in res["picked"][3] if f.endswith(suffix))
+        if sorted(res["picked"][2]) != want:
+            return (f"import_from_pvd restarted from the files {sorted(res['picked'][2])}, the "
+                    f"files of the most recent time-step index {last} are {want}")
+        times = case.get("times")
+        if (times is None or times == [float(x) for x in case["steps"]]) \
+                and res["picked"][0] != last:
             return (f"import_from_pvd restarted from time step {res['picked'][0]}, the most "
-                    f"recent one written is {case['steps'][-1]}")
+                    f"recent one written is {last}")
         for dd, back in zip(res["dims"], res["restored"]):
             if back != dd["vals"]:
                 what = "subdomains" if dd["sd"] else "interfaces"
@@ -357,6 +404,8 @@ class C38(Prop):
         for dd, back in zip(res["dims"], res["restored"]):
             if dd["blocks"] == "unreadable":
                 return None
+            if "nothing-imported" in back:
+                return "false"
             for c in range(ncomp):
                 pick = (lambda x: q(x[c])) if case["vector"] else q
                 grids = clist(dd["grids"], lambda g: clist(g, cz))
@@ -381,7 +430,7 @@ class C38(Prop):
             for dd in res["dims"]:
                 if dd["sd"] and dd["dim"] == 3 and len(dd["ids"]) > 1:
                     return KNOWN_POLY3D
-        if case["kind"] == "vtu" and "restarted from time step" in why:
+        if case["kind"] == "vtu" and "import_from_pvd restarted from" in why:
             return "import_from_pvd: latest time step"
         if case["kind"] == "vtu":
             return "import_state_from_vtu: interleaved cell types across subdomains of one dimension"
